@@ -11,7 +11,7 @@ InOrder(sub, full) == \E f \in [1..Len(sub) -> 1..Len(full)] :
 TReset == Ev("reset") /\ state' = {} /\ used' = {} /\ blocks' = 0
 TMine == /\ Ev("Mine")
          /\ LET c == E.a[1]  incl == E.included  disc == E.discarded  m == Miner(c, <<>>, state) IN
-            /\ ToSet(incl) \cup ToSet(disc) = ToSet(c) /\ ToSet(incl) \cap ToSet(disc) = {}
+            /\ ToSet(incl) \cup ToSet(disc) \subseteq ToSet(c) /\ ToSet(incl) \cap ToSet(disc) = {}   \* (a candidate may also be dropped silently)
             /\ InOrder(incl, c)
             /\ incl = m[1]                                   \* the real miner discards exactly the candidates the model calls invalid
             /\ E.okB /\ E.okC /\ E.okBrestart                \* every node accepts the honest miner's block
